@@ -63,39 +63,19 @@ Theorem C03_drain_is_full : forall effs c t t' ed k', exec c t (map MEff effs) =
   exists t2 ed2, drain c t' ed k' n = (t2, ed2, true) /\ full c t effs = (t2, ed2).
 Proof. exact exec_full. Qed.
 
-(* Concurrent use, REPAIRED dispatch (method looked up on the current state once the lock is held):
-   for ALL schedules of captures, starts, slow-operation completions and lock hand-overs, from any
+(* Concurrent use.  The wrapper _with_state_lock, as translated from the source, looks the method up on
+   the transfer's CURRENT state once the lock is held (redispatch_after_lock = true; the proof below
+   stops compiling if the source falls back to running the bound method selected by the caller).
+   For ALL schedules of captures, starts, slow-operation completions and lock hand-overs, from any
    machine state in which nobody holds the lock, every reported edge is documented. *)
-Theorem C03_concurrent : forall es m, m_holder m = None -> obs_documented (snd (run true m es)).
+Theorem C03_concurrent : forall es m, m_holder m = None ->
+  obs_documented (snd (run redispatch_after_lock m es)).
 Proof. exact concurrent_thm. Qed.
 
-(* The same statement for the wrapper as it is in the source, conditional on its discipline. *)
-Theorem C03_concurrent_as_translated : redispatch_after_lock = true ->
-  forall es m, m_holder m = None -> obs_documented (snd (run redispatch_after_lock m es)).
-Proof. intros E. rewrite E. exact concurrent_thm. Qed.
-
-(* Refused calls have no effect at any point of any schedule, under either discipline
-   (but under the captured discipline WHICH calls are refused is decided on the stale state). *)
+(* Refused calls have no effect at any point of any schedule. *)
 Theorem C03_concurrent_refusal_no_effect : forall b m e m' o i,
   step b m e = (m', o) -> In (ORet i false) o -> m_t m' = m_t m /\ o = [ORet i false].
 Proof. exact concurrent_refusal_thm. Qed.
-
-(* Finding F01.  With the dispatch of the CURRENT wrapper (redispatch_after_lock = false: the bound
-   method of the state object selected by the caller runs after the lock is obtained) the statement
-   is false: abort || pause on a QUEUED download reports the undocumented edge ABORTED -> PAUSED. *)
-Theorem C03_concurrent_refuted : redispatch_after_lock = false ->
-  exists t es a b, In (OEdge a b) (snd (run redispatch_after_lock (idle t) es)) /\ documented a b = false.
-Proof. intros E. rewrite E. exact concurrent_captured_refuted. Qed.
-
-(* Which of the two holds for the source under test is decided by the regenerated constant: *)
-Theorem C03_concurrent_dichotomy :
-  if redispatch_after_lock
-  then forall es m, m_holder m = None -> obs_documented (snd (run redispatch_after_lock m es))
-  else (trans QUEUED Download OAbort <> None -> trans QUEUED Download OPause <> None ->
-        documented ABORTED PAUSED = false ->
-        In (OEdge ABORTED PAUSED) (snd (run redispatch_after_lock (idle f01_transfer) f01_schedule)) ->
-        exists t es x y, In (OEdge x y) (snd (run redispatch_after_lock (idle t) es)) /\ documented x y = false).
-Proof. exact (concurrent_dichotomy redispatch_after_lock). Qed.
 
 (* ---------- non-vacuity ---------- *)
 Example C03_edges_documented_nonvacuous :
@@ -118,14 +98,20 @@ Example C03_sequential_nonvacuous :
   [(true, [(QUEUED, ABORTED)]); (false, []); (true, [(ABORTED, QUEUED)]); (true, [(QUEUED, PAUSED)])].
 Proof. vm_compute. reflexivity. Qed.
 
-(* the repaired machine on the F01 schedule: the stale pause is refused, one documented edge *)
+(* the schedule of (fixed) finding F01: the pause that lost the race is refused, one documented edge *)
 Example C03_concurrent_nonvacuous :
-  snd (run true (idle f01_transfer) f01_schedule) = [OEdge QUEUED ABORTED; ORet 0 true; ORet 1 false].
+  snd (run redispatch_after_lock (idle f01_transfer) f01_schedule) = [OEdge QUEUED ABORTED; ORet 0 true; ORet 1 false].
 Proof. vm_compute. reflexivity. Qed.
 
 (* a schedule in which the lock is really contended: a live task makes the abort wait while holding the lock *)
 Example C03_concurrent_contended_nonvacuous :
   let t := mkT DOWNLOADING Download None None false None (Some 10%N) 4%N 0%N 0%N true false true true TNone TLive in
-  snd (run true (idle t) [Capture f01_abort; Start 0; Capture f01_pause; Start 1; Step; Step; Step; Wake]) =
+  snd (run redispatch_after_lock (idle t) [Capture f01_abort; Start 0; Capture f01_pause; Start 1; Step; Step; Step; Wake]) =
   [OEdge DOWNLOADING ABORTED; ORet 0 true; ORet 1 false].
 Proof. vm_compute. reflexivity. Qed.
+
+(* the discipline matters: a wrapper that runs the method selected by the caller (the shape before the
+   fix of F01) reports the undocumented edge ABORTED -> PAUSED on the same schedule *)
+Example C03_captured_dispatch_would_fail :
+  exists t es a b, In (OEdge a b) (snd (run false (idle t) es)) /\ documented a b = false.
+Proof. exact concurrent_captured_refuted. Qed.
